@@ -64,6 +64,7 @@ BOXES = {
     "B_asym": [(-3.0, 5.0), (1.0, 2.0)],
     "B_dec": [(-0.1, 0.2), (1000.1, 1000.4)],
     "B_3d": [(-1.0, 1.0), (-1.0, 1.0), (-1.0, 1.0)],
+    "B_zero": [(0.0, 5.0), (-5.0, 0.0)],  # bounds that are exactly zero
 }
 
 ROOTS = ["SEA", "SEAX", "GA", "SEAA", "MWEA", "DE", "DEd", "SHADE", "LHS", "SOB"]
@@ -724,7 +725,17 @@ class World:
         self.precision_problem = None
         self.lsc_probes = []
         levels = []
+        shared = None
         for i, e in enumerate(self.engines):
+            if d.get("shared_problem") and shared is not None:
+                # the usual way of using pyhms: ONE problem object handed to every level
+                self.pure.append(self.pure[0])
+                self.cutoffs.append(None)
+                self.request_probes.append(None)
+                lp = ProbeLSC(make_lsc(lscs[i]), self, i)
+                self.lsc_probes.append(lp)
+                levels.append(make_level(e, shared, lp, gens[i], self.box, d))
+                continue
             shift = float(i) if d["levelshift"] else 0.0
             if self.maximize:
                 shift = -shift
@@ -753,6 +764,8 @@ class World:
                 self.request_probes.append(None)
             lp = ProbeLSC(make_lsc(lscs[i]), self, i)
             self.lsc_probes.append(lp)
+            if d.get("shared_problem"):
+                shared = p
             levels.append(make_level(e, p, lp, gens[i], self.box, d))
         self.level_configs = levels
         sm = make_sprout(d["sprout"], self, self.box)
